@@ -402,6 +402,12 @@ pub struct RunState {
     pub last_pending: bool,
     /// no self-wake was outstanding when the last poll returned (or never polled)
     pub settled: bool,
+    /// the last poll returned without the task's waker having been woken *during* the
+    /// poll (wake-ups that tokio deferred because the cooperative budget ran out arrive
+    /// afterwards and do not count): futures' (Try)ForEachConcurrent / FuturesUnordered
+    /// only leave a pushed future unpolled when they wake the task themselves, so every
+    /// function the ready stream handed out has had its closure invoked
+    pub handouts_started: bool,
     pub self_yields_in_poll: usize,
     pub intr_tx: Option<IntrTx>,
     pub signals_left: u8,
@@ -684,10 +690,12 @@ impl World {
                     }
                     let exact = {
                         let runs = self.runs.borrow();
-                        runs[run].family_counts_calls_exactly || (runs[run].settled && self.polling.get().is_none())
+                        runs[run].family_counts_calls_exactly || (runs[run].handouts_started && self.polling.get().is_none())
                     };
                     if !exact {
                         self.fire("interrupt_while_hand_outs_may_be_unstarted");
+                    } else if !self.runs.borrow()[run].family_counts_calls_exactly && !self.runs.borrow()[run].settled {
+                        self.fire("interrupt_exact_with_only_budget_deferred_wakeups_outstanding");
                     }
                     self.push(Ev::Interrupt { run, delivered, exact });
                 }
